@@ -665,6 +665,16 @@ Excused_RotationMsg(c, e) ==
 \* export a secret any more, so the better commit cannot even be unwrapped and the rollback never happens
 Excused_Evicted(c, g) == "EvictedNeverRecovers" \in Dev /\ cl[c][g].mls = "evicted"
 
+\* finding OwnCommitNotValidated: a non-admin's self_update sweeps up the proposals queued at it (a member's
+\* leave request), which makes it a commit every other member refuses (CommitFromNonAdmin); the author applies
+\* it anyway (own commits are never validated) and leaves the group's chain for good
+Excused_OwnInvalidCommit(c, g) ==
+    LET ch == cl[c][g].chain
+        n  == CommonPrefixLen(ch, Winner(g), 0) IN
+    /\ "OwnCommitNotValidated" \in Dev
+    /\ n < Len(ch)
+    /\ ev[ch[n + 1]].author = c /\ ~ValidCommit(ch[n + 1])
+
 C01_Plain == \A g \in Groups : Created(g) => \A c \in Remaining(g) : InScope(c, g) => ConvergedAt(c, g)
 C01_Ex(pr) == \A g \in Groups : Created(g) => \A c \in Remaining(g) :
                   InScope(c, g) => \/ ConvergedAt(c, g)
@@ -672,6 +682,8 @@ C01_Ex(pr) == \A g \in Groups : Created(g) => \A c \in Remaining(g) :
                                       /\ pr => PrintT(<<"KNOWN-FINDING", "C01", "MergeNoSnapshot", c, g>>)
                                    \/ /\ Excused_CommitBeforeProposal(c, g)
                                       /\ pr => PrintT(<<"KNOWN-FINDING", "C01", "CommitBeforeProposal", c, g>>)
+                                   \/ /\ Excused_OwnInvalidCommit(c, g)
+                                      /\ pr => PrintT(<<"KNOWN-FINDING", "C01", "OwnCommitNotValidated", c, g>>)
                                    \/ /\ Excused_Evicted(c, g)
                                       /\ pr => PrintT(<<"KNOWN-FINDING", "C01", "EvictedNeverRecovers", c, g>>)
                                    \/ /\ Excused_RotationCommit(c, g)
